@@ -20,10 +20,12 @@ RULE = ('distinct protocol lines (a single slice, a stitching call or an unslice
         'a non-empty series / frame')
 TRUSTED = ['correspondence harness (pv.engine, pv.proto) and generators of pv.props.c13',
            'Lean driver parser/printer (PygModel/Basic.lean, TSBasic.lean, SliceDriver.lean)']
-ASSUMPTIONS = ['pandas: boolean-mask selection and the label slice df[lb:ub] on a sorted unique DatetimeIndex select the rows the masks describe; '
+ASSUMPTIONS = ['pandas: boolean-mask selection keeps the rows whose mask is True, in order; the label slice df[lb:ub] on a non-decreasing DatetimeIndex '
+               'runs from the first row at or after lb to the last row at or before ub (model: labelSlice, proved equal to the masks there); with two '
+               'times of day it is indexer_between_time (both ends included), with one it raises and the masks are used; '
                'concat(axis=1) is an outer join on the union index; concat(axis=0) pads missing columns with NaN; sort_index is a stable sort',
-               'series have strictly increasing duplicate-free datetime indexes; lists hold series (not frames, not scalars); '
-               'bound lists hold dates only',
+               'single slices: any row order (increasing, decreasing, shuffled, a repeated stamp); stitching: series with strictly increasing '
+               'duplicate-free indexes; lists hold series (not frames, not scalars); bound lists hold dates only',
                'a Series and a one-column DataFrame with the same rows are not distinguished']
 
 D0 = datetime.datetime(2020, 1, 1)
@@ -51,8 +53,19 @@ def enc_dates(ds):
     return 'N' if ds is None else '(L' + ''.join(' ' + enc(d) for d in ds) + ')'
 
 
+OMIT = 'omit'      # openclose not passed at all: df_slice's own default '(]'
+
+
 def enc_oc(oc):
-    return 'N' if oc is None else enc(oc)
+    return 'N' if oc is None else '(L)' if oc == OMIT else enc(oc)
+
+
+def call_slice(df, lb, ub, ocx, **kw):
+    """df_slice with openclose as on the wire: (L) = argument omitted"""
+    from pyg_base import df_slice
+    if ocx == ['L']:
+        return df_slice(df, lb, ub, **kw)
+    return df_slice(df, lb, ub, None if ocx == 'N' else proto.dec(ocx), **kw)
 
 
 def enc_frame_rows(width, rows):
@@ -138,6 +151,24 @@ def rand_series12(rng):
     return [(pt(i), None if rng.random() < 0.1 else rng.randrange(1, 9)) for i in keep]
 
 
+def reorder(rng, pairs):
+    """the property quantifies over datetime-indexed series, not over sorted ones: decreasing / shuffled indexes
+    (F13: the pandas label slice the code takes for closed brackets cuts by position there)"""
+    r = rng.random()
+    if r < 0.4:
+        return pairs[::-1], '+decreasing-index'
+    if r < 0.8:
+        q = list(pairs)
+        rng.shuffle(q)
+        return q, '+shuffled-index'
+    # a sorted index holding a timestamp twice (label slice on a non-unique monotonic index)
+    q = list(pairs)
+    if q:
+        k = rng.randrange(len(q))
+        q.insert(k, (q[k][0], rng.randrange(1, 9)))
+    return q, '+duplicate-stamps'
+
+
 def date_bounds():
     """dates every 3 hours from before the first to after the last index point"""
     return [D0 + 3 * k * H for k in range(-2, 25)]
@@ -192,6 +223,20 @@ def gen_single(rng, tier):
             lb, ub = rng.choice([None] + DB), rng.choice([None] + DB)
             oc = rng.choice(['oc', 'CO', 'cc', 'oO', None, '', 'x]', '(', '(]]', ' ]', '[|'])
             tag = 'one-brackets'
+        if rng.random() < 0.25 and tag != 'one-brackets':
+            if tag == 'one-date' and rng.random() < 0.7:
+                # bounds on index points and closed brackets: where the label slice is taken and finds its labels
+                lb = rng.choice([None, pt(rng.randrange(12))])
+                ub = rng.choice([None, pt(rng.randrange(12))])
+                oc = rng.choice(['[]', '[]', '(]', '[)'])
+            pairs, sfx = reorder(rng, pairs)
+            if sfx == '+duplicate-stamps' and tag.startswith('one-tod-wrap'):
+                pairs = [p for i, p in enumerate(pairs) if i == 0 or pairs[i - 1][0] != p[0]]   # sort_index of equal stamps is not pinned down
+                sfx = ''
+            tag += sfx
+        elif rng.random() < 0.15 and oc == '(]':
+            oc = OMIT                    # the default brackets of df_slice itself
+            tag += '+default-oc'
         if rng.random() < 0.2:
             w = 2
             rows = [(t, [v, None if rng.random() < 0.3 else rng.randrange(1, 9)]) for t, v in pairs]
@@ -242,7 +287,7 @@ def gen_stitch(rng, tier):
             dfs = [[(t, v) for t, v in p if ((t - D0).days % 2) == (k % 2)] for k, p in enumerate(dfs)]
         n = rng.choice([1, 1, 2, 3, m, m + 1])
         bs = [day(b) for b in rand_bounds(rng, m)]
-        oc = '(]' if rng.random() < 0.7 else rng.choice(BR + [None])
+        oc = rng.choice(['(]', '(]', OMIT]) if rng.random() < 0.7 else rng.choice(BR + [None])
         r = rng.random()
         tag = 'stitch-ub'
         lb, ub = None, bs
@@ -278,6 +323,31 @@ def gen_stitch(rng, tier):
         n = rng.choice(list(range(1, m + 1)))
         tag = 'roundtrip-n%d' % min(n, 3) + ('+empty' if any(len(p) == 0 for p in dfs) else '')
         yield dict(tag=tag, lines=[roundtrip_line(dfs, ub, n)])
+    # series holding NaN values: the statement does not exclude them; a stitched row that is NaN throughout is lost by
+    # df_unslice (nona) - known finding C13-N1, every other round trip with NaN values must still be exact
+    for _ in range(n_rt // 3):
+        m = rng.choice([2, 3, 3, 4])
+        dfs = [rand_series_days(rng, nan=rng.choice([0.1, 0.3])) for _ in range(m)]
+        ub = [day(b) for b in rand_bounds(rng, m, strict=True)]
+        n = rng.choice(list(range(1, m + 1)))
+        yield dict(tag='roundtrip-nan-n%d' % min(n, 3) + ('+all-nan-row' if has_all_nan_row(dfs, ub, n) else ''), lines=[roundtrip_line(dfs, ub, n)])
+    # bounds that repeat ("increasing" read strictly excludes them): df_unslice files two series under one bound and the
+    # re-stitch is refused (ValueError) - model and code must agree on that
+    for _ in range(n_rt // 10):
+        m = rng.choice([3, 3, 4])
+        dfs = [rand_series_days(rng, nan=0.0) for _ in range(m)]
+        bs = sorted(rng.sample(range(-1, 13), m - 1))
+        k = rng.randrange(m - 1)
+        ub = [day(b) for b in bs[:k + 1] + bs[k:]]
+        yield dict(tag='roundtrip-repeated-bound', lines=[roundtrip_line(dfs, ub, rng.choice([1, 2, m]))])
+
+
+def has_all_nan_row(dfs, ub, n):
+    """does the frame the statement prescribes hold a row that is NaN in every column?"""
+    if len(ub) != len(dfs) or any(a >= b for a, b in zip(ub, ub[1:])):
+        return False
+    _, rows = py_stitch(dfs, ub, n)
+    return any(all(v is None for v in vs) for _, vs in rows)
 
 
 PAST, FUTURE = D0, datetime.datetime(2090, 1, 1)
@@ -308,22 +378,25 @@ def _canon_frame(r):
     return enc_frame(r)
 
 
+def _quiet():
+    import logging
+    logging.getLogger('pyg').setLevel(logging.ERROR)      # is_ts logs every unsorted series it meets
+
+
 def run_line(state, sx):
     from pyg_base import df_slice, df_unslice
+    _quiet()
     op, args = sx[1], sx[2:]
     if op == 'one':
         s = dec_ts(args[0])
-        oc = None if args[3] == 'N' else proto.dec(args[3])
-        return 'ok ' + enc_result(df_slice(s, dec_bound(args[1]), dec_bound(args[2]), oc))
+        return 'ok ' + enc_result(call_slice(s, dec_bound(args[1]), dec_bound(args[2]), args[3]))
     if op == 'onef':
         f = dec_frame(args[0])
-        oc = None if args[3] == 'N' else proto.dec(args[3])
-        return 'ok ' + enc_frame(df_slice(f, dec_bound(args[1]), dec_bound(args[2]), oc))
+        return 'ok ' + enc_frame(call_slice(f, dec_bound(args[1]), dec_bound(args[2]), args[3]))
     if op == 'stitch':
         dfs = [dec_ts(x) for x in args[0][1:]]
-        oc = None if args[3] == 'N' else proto.dec(args[3])
         n = int(args[4][2:])
-        return 'ok ' + enc_frame(df_slice(dfs, dec_dates(args[1]), dec_dates(args[2]), oc, n))
+        return 'ok ' + enc_frame(call_slice(dfs, dec_dates(args[1]), dec_dates(args[2]), args[3], n=n))
     if op == 'roundtrip':
         dfs = [dec_ts(x) for x in args[0][1:]]
         ub = dec_dates(args[1])
@@ -407,6 +480,7 @@ def py_stitch(dfs, ub, n):
 
 def laws(rng, tier, ctx):
     from pyg_base import df_slice, df_unslice
+    _quiet()
     count = 0
     DB, TB = date_bounds(), time_bounds()
     m1 = 250 if tier == 'quick' else 4000
@@ -418,7 +492,14 @@ def laws(rng, tier, ctx):
             lb, ub = rng.choice([None] + TB), rng.choice([None] + TB)
         oc = rng.choice(BR)
         count += 1
-        case = dict(tag='law-slice', lines=[one_line(pairs, lb, ub, oc)])
+        tag = 'law-slice'
+        wrap = isinstance(lb, datetime.time) and isinstance(ub, datetime.time) and lb > ub
+        if rng.random() < 0.3:
+            pairs, sfx = reorder(rng, pairs)
+            if sfx == '+duplicate-stamps' and wrap:
+                pairs = [p for i, p in enumerate(pairs) if i == 0 or pairs[i - 1][0] != p[0]]
+            tag += sfx
+        case = dict(tag=tag, lines=[one_line(pairs, lb, ub, oc)])
         s = pd.Series([np.nan if v is None else float(v) for _, v in pairs], pd.DatetimeIndex([t for t, _ in pairs]), dtype=float)
         try:
             r = df_slice(s, lb, ub, oc)
@@ -426,6 +507,8 @@ def laws(rng, tier, ctx):
             yield Finding('violation', case, 'df_slice raised %s' % type(e).__name__)
             continue
         want = [(t, v) for t, v in pairs if (py_in(t, lb, ub, oc) if (lb is not None or ub is not None) and pairs else True)]
+        if wrap:
+            want.sort(key=lambda p: p[0])        # the two halves are put back in time order (sort_index)
         got = [(pd.Timestamp(t).to_pydatetime(), None if v != v else int(v)) for t, v in zip(r.index, r.values)]
         if got != want:
             yield Finding('violation', case, 'rows kept %s, the interval prescribes %s' % (got, want))
@@ -465,4 +548,24 @@ def laws(rng, tier, ctx):
     yield count
 
 
-MATCHERS = {}
+def _dec_pairs(sx):
+    out = []
+    for item in sx[1:]:
+        v = proto.dec(item[2])
+        out.append((proto.dec(item[1]), None if (v is None or v != v) else int(v)))
+    return out
+
+
+def roundtrip_all_nan_row(f):
+    """C13-N1: a round trip whose stitched frame holds a row that is NaN in every column (series with NaN values)"""
+    line = f.case['lines'][0]
+    if not line.startswith('(slice roundtrip '):
+        return False
+    sx = proto.parse(line)
+    dfs = [_dec_pairs(x) for x in sx[2][1:]]
+    if any(len(set(t for t, _ in p)) != len(p) or [t for t, _ in p] != sorted(t for t, _ in p) for p in dfs):
+        return False
+    return has_all_nan_row(dfs, dec_dates(sx[3]), int(sx[4][2:]))
+
+
+MATCHERS = {'roundtrip_all_nan_row': roundtrip_all_nan_row}
